@@ -59,6 +59,20 @@ p12 == GateOn("CNOT", <<QPh(1), QPh(2)>>)
 cp  == I("cp",  "DefCal", "DEFCAL Z 0", "DEFCAL Z 0:\n    Y {ph3}", {Q(0), QPh(3)})
 br  == I("br",  "Body", "-", "RESET", {})
 
+\* near-misses of add_instruction's routing: pragmas whose name is not exactly EXTERN (they stay in the body, even
+\* with the first argument of a real extern pragma), a circuit named like a gate definition, a declaration named
+\* like a frame, frames differing only in qubit order, a measure calibration without target next to one with a
+\* target, and a frame re-defined with a strict subset of its attributes (f1c, then f1)
+px1 == I("px1", "Body", "-", "PRAGMA extern foo \"(x : INTEGER)\"", {})
+px2 == I("px2", "Body", "-", "PRAGMA Extern foo \"(x : INTEGER)\"", {})
+px3 == I("px3", "Body", "-", "PRAGMA EXTERNS foo \"(x : INTEGER)\"", {})
+kg  == I("kg",  "DefCircuit", "G", "DEFCIRCUIT G a:\n    X a\n", {})
+dx  == I("dx",  "Declare", "x", "DECLARE x BIT[1]", {})
+f4  == I("f4",  "DefFrame", "1 0 \"x\"", "DEFFRAME 1 0 \"x\":\n    HARDWARE-OBJECT: \"h1\"", {})
+f1c == I("f1c", "DefFrame", "0 \"x\"", "DEFFRAME 0 \"x\":\n    HARDWARE-OBJECT: \"h1\"\n    INITIAL-FREQUENCY: 1000000", {})
+mn  == I("mn",  "DefCalMeasure", "DEFCAL MEASURE 0", "DEFCAL MEASURE 0:\n\tX 0\n", {Q(0)})
+Routing == {e1, px1, px2, px3, g1, kg, dx, f1, f1c, f3, f4, m1b, mn, c1b, b0}
+
 Full  == {e1, e1b, e2, d1, d1b, d2, f1, f1b, f2, f3, w1, w1b, w2, c1, c1b, c2, m1, m1b, m2,
           g1, g1b, g2, k1, k1b, k2, b0, bn, bp}
 \* frames, calibrations, an extern pragma, a declaration and body instructions: the tables with their own
@@ -89,19 +103,23 @@ Profiles ==
   CASE Prop = "C08" /\ Tier = "quick" ->
          {Prof("adds", Full \ {bn, bp}, 3, {}, 0, {}, {}, 0, 0),
           \* B + A is the mirror image of A + B here (same alphabet and bound on both sides): thorough only
-          Prof("concat", Tiny, 2, Tiny, 2, {"ConcatAB", "AddAssignAB"}, {}, 1, 1)}
+          Prof("concat", Tiny, 2, Tiny, 2, {"ConcatAB", "AddAssignAB"}, {}, 1, 1),
+          Prof("routing", Routing, 3, {}, 0, {}, {}, 0, 0)}
     [] Prop = "C08" /\ Tier = "thorough" ->
          {Prof("adds", Full, 3, {}, 0, {}, {}, 0, 0),
           Prof("deep", Small, 4, {}, 0, {}, {}, 0, 0),
           Prof("deeper", Tiny, 5, {}, 0, {}, {}, 0, 0),
+          Prof("routing", Routing, 4, {}, 0, {}, {}, 0, 0),
           Prof("concat", Small, 2, Small, 2, ConcatTail, {}, 1, 1)}
     [] Prop = "C09" /\ Tier = "quick" ->
          {Prof("adds", Full, 3, {}, 0, {}, {}, 0, 0),
-          Prof("bulk", Small, 2, {}, 0, {"FromListing", "AddMany"}, Small, 1, 2)}
+          Prof("bulk", Small, 2, {}, 0, {"FromListing", "AddMany"}, Small, 1, 2),
+          Prof("routing", Routing, 3, {}, 0, {}, {}, 0, 0)}
     [] Prop = "C09" /\ Tier = "thorough" ->
          {Prof("adds", Full, 3, {}, 0, {}, {}, 0, 0),
           Prof("deep", Small, 4, {}, 0, {}, {}, 0, 0),
-          Prof("bulk", Small, 3, {}, 0, {"FromListing", "AddMany"}, Small, 1, 2)}
+          Prof("bulk", Small, 3, {}, 0, {"FromListing", "AddMany"}, Small, 1, 2),
+          Prof("routing", Routing, 4, {}, 0, {}, {}, 0, 0)}
     [] Prop = "C10" /\ Tier = "quick" ->
          {Prof("ops", {}, 0, {}, 0, QuickC10Tail \ {"ResolveWith", "New"}, C10Alpha \ {d1, bn, c2, b12}, 3, 3),
           Prof("ph", {}, 0, {}, 0, PhTail, PhAlpha \ {b1}, 3, 3)}
@@ -113,11 +131,13 @@ Profiles ==
          {Prof("ops8", {}, 0, {}, 0, AllTail, C10Alpha \cup PhAlpha, 8, 8)}
     [] Prop = "C11" /\ Tier = "quick" ->
          {Prof("pairs", Tiny, 2, Tiny, 2, {"ConcatAB", "AddAssignAB"}, {}, 1, 1),
-          Prof("tables", AllTables, 1, AllTables, 1, {"ConcatAB", "AddAssignAB"}, {}, 1, 1)}
+          Prof("tables", AllTables, 1, AllTables, 1, {"ConcatAB", "AddAssignAB"}, {}, 1, 1),
+          Prof("routing", Routing, 2, Routing, 1, {"ConcatAB", "AddAssignAB"}, {}, 1, 1)}
     [] Prop = "C11" /\ Tier = "thorough" ->
          {Prof("pairs", Small, 2, Small, 2, {"ConcatAB", "AddAssignAB"}, {}, 1, 1),
           Prof("pairs3", Tiny, 3, Tiny, 2, {"ConcatAB", "AddAssignAB"}, {}, 1, 1),
-          Prof("tables", AllTables, 2, AllTables, 1, {"ConcatAB", "AddAssignAB"}, {}, 1, 1)}
+          Prof("tables", AllTables, 2, AllTables, 1, {"ConcatAB", "AddAssignAB"}, {}, 1, 1),
+          Prof("routing", Routing, 2, Routing, 1, {"ConcatAB", "AddAssignAB"}, {}, 1, 1)}
 
 ----------------------------------------------------------------------------
 VARIABLES prof, phase, hist
